@@ -173,6 +173,22 @@ def altTexts (esc : Bool) : List Node → Bytes
   | c :: rest => altText esc c ++ altTexts esc rest
 end
 
+/-! ### html.firstTextRune: is there a non-empty Text/String in document order below (or at) the node? -/
+
+mutual
+def nodeHasText : Node → Bool
+  | .mk (.text v ..) _ cs => !v.isEmpty || nodesHaveText cs
+  | .mk (.string v ..) _ cs => !v.isEmpty || nodesHaveText cs
+  | .mk _ _ cs => nodesHaveText cs
+def nodesHaveText : List Node → Bool
+  | [] => false
+  | c :: rest => nodeHasText c || nodesHaveText rest
+end
+
+def hasFirstText : Option Node → Bool
+  | none => false
+  | some n => nodeHasText n
+
 /-- renderCodeSpan's loop over its (Text) children -/
 def codeSpanBody : List Node → Bytes
   | [] => []
@@ -287,9 +303,7 @@ def enter (rc : RCfg) (parentIsHeader : Bool) (next : Option Node) (k : Kind) (a
          (if rc.core.xhtml then strBytes "<br />\n" else strBytes "<br>\n")
        else if soft then
          (if rc.core.ea != 0 && !v.isEmpty then
-            (match next with
-             | some (.mk (.text sv ..) _ _) => if !sv.isEmpty && cjk then [10] else []
-             | _ => [])
+            (if !hasFirstText next || cjk then [10] else [])
           else [10])
        else [])
   | .string v raw code => renderStringOut rc.core.escSpace v raw code
